@@ -13,6 +13,7 @@ import (
 	"context"
 	"errors"
 	"fmt"
+	"github.com/ajitpratap0/GoSQLX/pkg/sql/tokenizer"
 	"regexp"
 	"strings"
 
@@ -89,6 +90,11 @@ func inputs(thorough bool) []input {
 		Where: &[]sqlgen.X{sqlgen.Bin("=", sqlgen.Col("c3"), sqlgen.Str("s1"))}[0], OrderBy: []sqlgen.OrderItem{{X: sqlgen.Col("c1")}}}.Build()
 	for l := 0; l <= sqlgen.NLayouts; l++ {
 		in = append(in, input{fmt.Sprintf("sqlgen-layout-%d", l), sqlgen.Render(base.Toks, l)})
+	}
+	// limit violations (huge inputs: only the polls 0, 1, 2, P/2, P-2, P-1, P are fired): the dedicated limit error must not take precedence over a context that is already done
+	in = append(in, input{"over-size-limit", "SELECT 1 " + strings.Repeat(" ", tokenizer.MaxInputSize)})
+	if thorough {
+		in = append(in, input{"over-token-limit", "SELECT 1" + strings.Repeat(",1", tokenizer.MaxTokens/2+1)})
 	}
 	// every clause form of the model grammar (join kinds, derived tables on either side of a join, LATERAL,
 	// grouping sets, CTE forms, window frames ...): each has its own poll sites and hand-maintained depth accounting
@@ -278,7 +284,7 @@ func Check() *common.Check {
 	return &common.Check{
 		ID:    "C11",
 		Level: "fault_enumeration",
-		Rule: "for each input (one statement per poll-site context: plain, CTE, nested CTE, CASE, scalar/IN/EXISTS/quantified sub-query, derived table, JOIN ON, set operation, function argument, BETWEEN/IN/LIKE, array index, INSERT…SELECT, DML, script, invalid, 250- and 1000-token lists; " +
+		Rule: "for each input (one statement per poll-site context: plain, CTE, nested CTE, CASE, scalar/IN/EXISTS/quantified sub-query, derived table, JOIN ON, set operation, function argument, BETWEEN/IN/LIKE, array index, INSERT…SELECT, DML, script, invalid, 250- and 1000-token lists, 26 lexical layouts, every clause option of sqlgen, an input one byte over the size limit (thorough: one over the token limit; polls 0-2, P/2, P-2..P only); " +
 			"thorough adds comments, empty input, tokenizer error, MERGE, CREATE TABLE, window frame, 2500 tokens and every expression hole of sqlgen.Holes() filled with a nested expression) and each of gosqlx.ParseWithContext, Tokenizer.TokenizeContext, Parser.ParseContextFromModelTokens: " +
 			"P = polls of ctx.Err() in an undisturbed run is measured, then one case per k in 0..P and per kind in {Canceled, DeadlineExceeded} with a context that reports done from its (k+1)-th poll on; " +
 			"distinct = (entry point, input, k, kind); non-trivial = the context turned done during the call after at least one poll had seen it live (0 < k < P)",
@@ -303,6 +309,9 @@ func Check() *common.Check {
 					en.run(c0, in.sql)
 					P := c0.Calls
 					for k := 0; k <= P; k++ {
+						if strings.HasPrefix(in.fam, "over-") && !(k <= 2 || k >= P-2 || k == P/2) {
+							continue
+						}
 						for _, kind := range kinds {
 							k, kind := k, kind
 							key := fmt.Sprintf("%s|%s|k=%d/%d|%s", en.name, in.fam, k, P, kindName(kind))
@@ -351,6 +360,12 @@ func runCase(c *common.Ctx, en entry, in input, k, P int, kind error) {
 		if ctx.After > maxAfter {
 			c.Fail("late-return:"+en.name, fmt.Sprintf("the call polled the context %d more times after it had reported %v (poll %d of %d) before returning", ctx.After, kind, k+1, P))
 		}
+	} else if k == 0 {
+		// the context was done before the call started and the call never looked at it
+		if err == nil || !errors.Is(err, kind) {
+			c.Fail("done-context-ignored:"+en.name, fmt.Sprintf("the context was already done (%v) when the call started; the call never polled it and returned %s", kind, common.Trim(res, 300)))
+		}
+		c.Outcome("done-at-entry:never-polled")
 	} else {
 		// the context stayed live for the whole call: exactly the context-free result
 		want := en.plain(in.sql)
